@@ -197,12 +197,12 @@ func init() {
 		return Value{K: kScalar, T: fv.errIs(args[0].T, args[1].T), Type: fv.typeOf(x)}, true
 	}
 
-	libModelDocs["bytes.Equal"] = "content equality of two byte slices (uninterpreted over contents, reflexive, implies equal length); no effect"
+	libModelDocs["bytes.Equal"] = "equality of the content identities of the two byte slices (bytes_id is an abstract, injective-by-assumption function of contents); no effect"
 	libModels["bytes.Equal"] = func(fv *FV, e *Env, x *ast.CallExpr, recv *Value, args []Value) (Value, bool) {
 		if args[0].K != kSlice || args[1].K != kSlice {
 			return Value{}, false
 		}
-		return Value{K: kScalar, T: fv.bytesEq(e, args[0], e, args[1]), Type: fv.typeOf(x)}, true
+		return Value{K: kScalar, T: eq(fv.bytesID(e, args[0]), fv.bytesID(e, args[1])), Type: fv.typeOf(x)}, true
 	}
 	libModelDocs["slices.Clone"] = "fresh slice with equal contents"
 	libModels["slices.Clone"] = func(fv *FV, e *Env, x *ast.CallExpr, recv *Value, args []Value) (Value, bool) {
@@ -310,5 +310,79 @@ func init() {
 		}
 		fv.s.declFun("ctx_err", []string{sRef}, sRef)
 		return Value{K: kScalar, T: app(sRef, "ctx_err", recv.T), Type: fv.typeOf(x)}, true
+	}
+}
+
+// cbor.Unmarshal(data, dst): decoding is a deterministic function of the
+// input bytes. For a destination that is a pointer to a struct, every field
+// becomes an uninterpreted function of the input's content identity, named
+// cbor.<Type>.<Field> (usable from contracts as uf("cbor.T.F", bytesId(data))).
+func init() {
+	for _, name := range []string{"Unmarshal", "UnmarshalTrusted"} {
+		full := modPrefix + "common/cbor." + name
+		libModelDocs[full] = "deterministic decoder: on success each field of *dst is a function of the input bytes (uf cbor.<Type>.<Field>); writes only *dst; the result error is a function of the input"
+		libModels[full] = func(fv *FV, e *Env, x *ast.CallExpr, recv *Value, args []Value) (Value, bool) {
+			if len(args) != 2 || args[0].K != kSlice || len(x.Args) != 2 {
+				return Value{}, false
+			}
+			dt := fv.typeOf(x.Args[1])
+			if dt == nil {
+				return Value{}, false
+			}
+			p, ok := dt.Underlying().(*types.Pointer)
+			if !ok || !isObjectType(p.Elem()) || isBigInt(p.Elem()) {
+				return Value{}, false
+			}
+			named, ok := types.Unalias(p.Elem()).(*types.Named)
+			if !ok {
+				return Value{}, false
+			}
+			id := fv.bytesID(e, args[0])
+			fv.s.declFun("uf$cbor.err$Int", []string{sInt}, sRef)
+			errT := app(sRef, "uf$cbor.err$Int", id)
+			fv.decodeInto(e, id, args[1].T, p.Elem(), "cbor."+named.Obj().Name())
+			fv.havocAlloc(e)
+			return Value{K: kScalar, T: errT, Type: fv.typeOf(x)}, true
+		}
+	}
+}
+
+func (fv *FV) decodeInto(e *Env, id Term, ref Term, t types.Type, prefix string) {
+	st := structOf(t)
+	if st == nil || isBigInt(t) {
+		fv.havocObject(e, ref, t)
+		return
+	}
+	for i := 0; i < st.NumFields(); i++ {
+		f := st.Field(i)
+		name := prefix + "." + f.Name()
+		if isObjectType(f.Type()) {
+			if isBigInt(f.Type()) || structOf(f.Type()) == nil {
+				fv.havocObject(e, fv.fieldAddr(t, f, ref), f.Type())
+				continue
+			}
+			fv.decodeInto(e, id, fv.fieldAddr(t, f, ref), f.Type(), name)
+			continue
+		}
+		k, srt := sortOf(f.Type())
+		switch k {
+		case kSlice:
+			v := fv.freshValue(f.Type(), "dec")
+			if sl, ok := f.Type().Underlying().(*types.Slice); ok {
+				if b, ok := sl.Elem().Underlying().(*types.Basic); ok && b.Kind() == types.Uint8 {
+					fn := "uf$" + sanitize(name) + "$Int"
+					fv.s.declFun(fn, []string{sInt}, sInt)
+					fv.assume(e, eq(fv.bytesID(e, v), app(sInt, fn, id)))
+				}
+			}
+			fv.assumeAllocated(e, v)
+			fv.storeField(e, t, f, ref, v)
+		default:
+			fn := "uf$" + sanitize(name) + "$Int"
+			fv.s.declFun(fn, []string{sInt}, srt)
+			val := app(srt, fn, id)
+			fv.assume(e, rangeFact(val, f.Type()))
+			fv.storeField(e, t, f, ref, Value{K: kScalar, T: val, Type: f.Type()})
+		}
 	}
 }
